@@ -57,6 +57,49 @@ def racing_writer(ctx, n):
     return done
 
 
+def same_second(ctx, n):
+    """Two or three runs within one second of the clock (backup names have one-second resolution), alone in the
+    group or after earlier backups: the later run deduplicates against the backup whose name it would take.  Whatever
+    it does, every extern record present afterwards must still resolve inside the group."""
+    import os, random
+    from vlib import hist
+    done = 0
+    for i in range(n):
+        rng = random.Random(ctx.seed * 1000 + 500 + i)
+        w = hist.World(ctx, 8500 + i, rng, max_groups=rng.randint(1, 2), max_per_group=rng.randint(2, 4), nitems=1)
+        try:
+            for k in range(rng.randint(2, 5)):
+                w.write(os.path.join(w.items[0], 'f%d' % k), 700 + i * 10 + k, rng.choice([1, 30, 5000, 20000]))
+            rcs = []
+            for k in range(rng.randint(0, 2)):
+                rcs.append(w.backup(advance=rng.choice([5, 3600])).rc)
+                w.edit()
+            rcs.append(w.backup(advance=7).rc)
+            for k in range(rng.randint(1, 2)):
+                if rng.random() < 0.5:
+                    w.edit()
+                rcs.append(w.backup(advance=0).rc)
+            dec = w.decode_storage(with_entries=False)
+            for g in dec:
+                seen = set()
+                for b in sorted(dec[g]):
+                    recs = dec[g][b]['records']
+                    if recs is None:
+                        ctx.violation('property', 'runs in the same second: the manifest of %s/%s is unreadable' % (g, b),
+                                      {'case': {'scenario': 'same-second', 'index': i}, 'rcs': rcs})
+                        continue
+                    for rec in recs:
+                        if rec['unique']:
+                            seen.add(rec['hash'])
+                        elif rec['size'] > 0 and rec['hash'] not in seen:
+                            ctx.violation('property', 'runs in the same second: extern record %s of %s/%s (hash %s...) has no unique record in its group'
+                                          % (rec['path'], g, b, rec['hash'][:16]), {'case': {'scenario': 'same-second', 'index': i}, 'rcs': rcs})
+            done += 1
+        finally:
+            w.cleanup()
+    return done
+
+
 def check(ctx):
     aud = core.audit(ctx.prop)
     core.report_audit(ctx, aud)
@@ -68,6 +111,7 @@ def check(ctx):
     store.ensure_shim()
     steps = dc.run_all(ctx, 50, 700)
     races = racing_writer(ctx, 4 if ctx.tier == 'quick' else 40)
+    same = same_second(ctx, 6 if ctx.tier == 'quick' else 60)
     pub, st = dc.correspond(ctx, steps, dc.oracle_c02, 'dedup')
     distinct = {core.canon(dc.model_request(s)) for s in pub if s['earlier'] and len(s['new']['records'] or []) >= 2}
     ctx.coverage.update({
@@ -78,7 +122,7 @@ def check(ctx):
                 'non-trivial = a run appending to an existing group with at least two file records; distinct by model request',
         'samples': [dc.model_request(pub[0])] if pub else [],
         'correspondence': st, 'distribution': dc.stats(steps, pub),
-        'disagreements_checked': st['cases'], 'racing_writer_runs': races,
+        'disagreements_checked': st['cases'], 'racing_writer_runs': races, 'same_second_histories': same,
     })
     ctx.assumptions += ['every content change also changes (device, inode, mtime) — the generator gives each written file a fresh mtime',
                         'SHA-512 collision-free on the generated contents']
